@@ -393,6 +393,20 @@ def pad(
         fill_value, "fill_value"
     )
 
+    # Refuse invalid options even when no padding will take place (or the rule in force ignores the fill value)
+    for ax, ax_padding in padding.items():
+        if ax_padding not in _XGCM_BOUNDARY_KWARG_TO_XARRAY_PAD_KWARG:
+            raise ValueError(
+                f"boundary must be one of {list(_XGCM_BOUNDARY_KWARG_TO_XARRAY_PAD_KWARG.keys())}, but got {ax_padding!r} for axis {ax!r}"
+            )
+    for ax, ax_fill_value in fill_value.items():
+        if ax_fill_value is not None and not isinstance(
+            ax_fill_value, (int, float, np.number)
+        ):
+            raise TypeError(
+                f"fill value must be a number, but got {ax_fill_value!r} for axis {ax!r}"
+            )
+
     # Exit without padding if all widths are zero
     if padding_width is None or all(
         width == (0, 0) for width in padding_width.values()
